@@ -2412,6 +2412,22 @@ impl<'a, E: quiver_core::effects::Effect> Compiler<'a, E> {
         Ok(typing::union_type_ids(self.program, branch_types))
     }
 
+    /// Provenance for `$`. `Provenance::Parameter` always resolves against the innermost scope,
+    /// so it names the function parameter only directly in the function body; inside a nested
+    /// block it would name that block's parameter, and a match on `$` would narrow the wrong
+    /// value.
+    fn function_parameter_provenance(&self) -> Provenance {
+        if self
+            .scopes
+            .last()
+            .is_some_and(|scope| scope.kind == ScopeKind::Function)
+        {
+            Provenance::Parameter
+        } else {
+            Provenance::Unknown
+        }
+    }
+
     /// Compile a sequence of `,`-separated chains, short-circuiting to nil if any yields nil.
     fn compile_sequence(
         &mut self,
@@ -3433,12 +3449,9 @@ impl<'a, E: quiver_core::effects::Effect> Compiler<'a, E> {
                     self.codegen.add_instruction(Instruction::Pop);
                 }
                 self.codegen.add_instruction(Instruction::Load(param_local));
-                let (accessed_type, accessed_prov) = self.compile_accessor(
-                    param_type,
-                    access.accessors,
-                    "$",
-                    Provenance::Parameter,
-                )?;
+                let param_prov = self.function_parameter_provenance();
+                let (accessed_type, accessed_prov) =
+                    self.compile_accessor(param_type, access.accessors, "$", param_prov)?;
 
                 if let (true, Some(val_type)) = (is_callable, value_type) {
                     let ty =
@@ -4022,12 +4035,9 @@ impl<'a, E: quiver_core::effects::Effect> Compiler<'a, E> {
                         let (param_type, param_local) =
                             scopes::get_function_parameter(&self.scopes)?;
                         self.codegen.add_instruction(Instruction::Load(param_local));
-                        let (accessed_type, accessed_prov) = self.compile_accessor(
-                            param_type,
-                            access.accessors,
-                            "$",
-                            Provenance::Parameter,
-                        )?;
+                        let param_prov = self.function_parameter_provenance();
+                        let (accessed_type, accessed_prov) =
+                            self.compile_accessor(param_type, access.accessors, "$", param_prov)?;
                         self.record_typed(
                             ref_span,
                             accessed_type,
